@@ -238,7 +238,7 @@ def main(ck):
     ref1, sc1 = dyn.rne(S, k, qvel, a, return_scale=True)
     close('rne1', r1, ref1, sc1 + 1e-12, K_RNE, 'mj_rne(flg_acc=1) vs reference Newton-Euler', 'rne1-vs-reference')
     Mrig = M - Ma * P if cross else M - Ma
-    close('rne1-Ma', r1, Mrig @ a + r0, np.abs(Mrig) @ np.abs(a) + sc0 + 1e-12, K_RNE,
+    close('rne1-Ma', r1, Mrig @ a + r0, (np.abs(M) + np.abs(Ma)) @ np.abs(a) + sc0 + 1e-12, K_RNE,
           'mj_rne(1,a) vs (M - armature) a + mj_rne(0)', 'rne1-vs-M')
     if np.any(Ma != 0):
       labels.append('armature-present')
